@@ -206,6 +206,7 @@ class UdpLoop(VLoop):
         self._timer_fired = False  # a timer was made ready at this boundary (no more I/O injection before STEP)
         self.trace_digest = None   # optional hashlib object fed with every delivery (observation log)
         self._recent_deadlines = collections.deque()   # RPC deadlines of requests sent, ascending
+        self.boundaries = 0        # iteration boundaries visited by run_until (the unit of every step horizon)
 
     # -- endpoint creation ---------------------------------------------------------------------------------------
     async def create_datagram_endpoint(self, protocol_factory, local_addr=None, remote_addr=None, **kw):
@@ -380,6 +381,7 @@ class UdpLoop(VLoop):
             if done():
                 return 'done'
             steps += 1
+            self.boundaries += 1
             if steps > max_steps:
                 return 'horizon_steps'
             explore = chooser is not None and (budget is None or spent < budget)
@@ -559,10 +561,10 @@ class Net:
         """Default schedule until every node has joined and the routing tables did not change over a whole `window`
         of virtual seconds that starts at or after min_t.  Returns dict(fixed, vtime, datagrams)."""
         lp = self.loop
-        # step budget: measured joins need ~10k (n=2) .. ~130k (n=40) boundaries; >= 10x that with virtual time still
-        # short of the target means "virtual time does not advance" (a lookup that never ends spins without
-        # consuming time)
-        budget = 300_000 + 30_000 * self.n
+        # step budget per leg: whole joins were measured at 14.6k (n=2) .. 68k (n=40) iteration boundaries; more than
+        # 10x that with virtual time still short of the target means "virtual time does not advance" (a lookup that
+        # never ends spins without consuming time)
+        budget = 150_000 + 15_000 * self.n
         if not lp.advance_to(min_t, max_steps=budget):
             return {'fixed': False, 'stuck': True, 'vtime': lp.time(), 'datagrams': lp.stats['sent']}
         snap = self.tables()
